@@ -201,7 +201,7 @@ def _run_base(cfg, rec):
                           z3.BoolVal(exc is None and out["got"] == (sorted(k for k in exp if "." not in k), sorted(exp)) and unchanged),
                           "registry:list"))
         rec.check_all(ctx, items, wit)
-        rec.sample({"pre_state": {"short": out["short"], "registered": out["reg"]}, "op": op, "s": SHORTS[s], "p": PLUGINS[p].__name__,
+        rec.want_sample() and rec.sample({"pre_state": {"short": out["short"], "registered": out["reg"]}, "op": op, "s": SHORTS[s], "p": PLUGINS[p].__name__,
                     "raised": type(exc).__name__ if exc else None, "warnings": nwarn})
     rec.validate("base", {}, {"ok": True})
 
@@ -309,7 +309,7 @@ def _run_instance(cfg, rec):
                 items.append(("unknown format -> ValueError with the given message", z3.BoolVal(isinstance(exc, ValueError) and str(exc) == "unknown format"),
                               "registry:instance-get:unknown"))
         rec.check_all(ctx, items, wit)
-        rec.sample({"op": op, "format": fmts[f], "class": classes[c].__name__, "pre_short": {fmts[k]: str(v) for k, v in short.items()},
+        rec.want_sample() and rec.sample({"op": op, "format": fmts[f], "class": classes[c].__name__, "pre_short": {fmts[k]: str(v) for k, v in short.items()},
                     "raised": type(exc).__name__ if exc else None})
     rec.validate("instance", {}, {"ok": True})
 
@@ -445,7 +445,7 @@ def _run_public(cfg, rec):
                           z3.BoolVal(out["loaded"] == f"loaded-by-{want_name}" and out["calls"] == [(want_name, "load", "vfmt")]),
                           f"registry:public-{reg}:dispatch"))
         rec.check_all(ctx, items, wit)
-        rec.sample({k: (v.__name__ if isinstance(v, type) else v) for k, v in out.items() if k in ("order", "explicit", "repoint", "resolved", "warnings")})
+        rec.want_sample() and rec.sample({k: (v.__name__ if isinstance(v, type) else v) for k, v in out.items() if k in ("order", "explicit", "repoint", "resolved", "warnings")})
     rec.validate("public", {}, {"ok": True})
 
 
